@@ -35,6 +35,13 @@ type dev struct {
 type faultCase struct {
 	Rounds int   `json:"rounds"`
 	Devs   []dev `json:"devs"`
+
+	// RulesOnly selects the storage variant without blocked services and
+	// safe search: a round is the rule-list index and the two rule lists.
+	// (In the full variant a round context that ends early also fails the
+	// service index, which makes the storage return before it installs the
+	// rule lists, and hides what the rule-list loop did.)
+	RulesOnly bool `json:"rules_only,omitempty"`
 }
 
 // hpCase is one history of the hashprefix filter: Kinds[i] is the answer kind
@@ -209,6 +216,39 @@ func TestVerifC13Faults(t *testing.T) {
 			return fs
 		})
 
+	// The rules-only variant: deviations at the index and the two lists.  All
+	// single deviations; pairs over the core options — in the quick tier only
+	// the pairs that contain a cancelled round context.
+	vrt.Part(r, "storage-rules-only",
+		func(emit func(faultCase)) {
+			rulePos := func(d dev) bool { return in(d.P, posIdx, posL1, posL2) }
+			emit(faultCase{Rounds: rounds, RulesOnly: true})
+			for _, o := range opts {
+				if rulePos(o) {
+					emit(faultCase{Rounds: rounds, RulesOnly: true, Devs: []dev{o}})
+				}
+			}
+			for i := range core {
+				for j := i + 1; j < len(core); j++ {
+					a, b := core[i], core[j]
+					if !rulePos(a) || !rulePos(b) || (a.R == b.R && a.P == b.P) {
+						continue
+					}
+					if maxDevs == 2 && a.K != kCtxCancel && b.K != kCtxCancel {
+						continue
+					}
+					emit(faultCase{Rounds: rounds, RulesOnly: true, Devs: []dev{a, b}})
+				}
+			}
+		},
+		func(c faultCase) (fs []vrt.Finding) {
+			dir := caseDir()
+			defer os.RemoveAll(dir)
+			synctest.Test(t, func(_ *testing.T) { fs = runStorageHistory(r, dir, c) })
+
+			return fs
+		})
+
 	hpKinds := append([]string{kOK}, fetchFaults...)
 	vrt.Part(r, "hashprefix",
 		func(emit func(hpCase)) {
@@ -331,7 +371,13 @@ func runStorageHistory(r *vrt.Run, dir string, c faultCase) (out []vrt.Finding) 
 		plans[d.R][d.P] = d.K
 	}
 
-	s, err := newStorage(dir, bubbleParams)
+	params := bubbleParams
+	params.rulesOnly = c.RulesOnly
+	positions, lists := storagePositions, storageLists
+	if c.RulesOnly {
+		positions, lists = []string{posIdx, posL1, posL2}, []string{lstL1, lstL2}
+	}
+	s, err := newStorage(dir, params)
 	if err != nil {
 		vrt.Fatalf("building storage: %v", err)
 	}
@@ -342,8 +388,8 @@ func runStorageHistory(r *vrt.Run, dir string, c faultCase) (out []vrt.Finding) 
 		vrt.Fatalf("initial refresh with a healthy network failed: %v", err)
 	}
 	prevObs, nq := probeStorage(ctx, s, 1)
-	r.Trans(1 + len(storagePositions) + nq)
-	for _, lst := range storageLists {
+	r.Trans(1 + len(positions) + nq)
+	for _, lst := range lists {
 		if prevObs[lst] != "v0" {
 			vrt.Fatalf("after the initial refresh list %s serves %s, want v0", lst, prevObs[lst])
 		}
@@ -352,7 +398,7 @@ func runStorageHistory(r *vrt.Run, dir string, c faultCase) (out []vrt.Finding) 
 	if err != nil {
 		vrt.Fatalf("reading cache dir: %v", err)
 	}
-	for _, pos := range storagePositions {
+	for _, pos := range positions {
 		if prevFiles[cacheFileOf(pos)] != content(pos, 0) {
 			vrt.Fatalf("after the initial refresh cache file %s is %s", cacheFileOf(pos), short(prevFiles[cacheFileOf(pos)]))
 		}
@@ -362,7 +408,9 @@ func runStorageHistory(r *vrt.Run, dir string, c faultCase) (out []vrt.Finding) 
 		time.Sleep(roundGap)
 		plan := plans[round]
 		w.setRound(round, plan)
-		refErr := s.Refresh(ctx)
+		rctx, cancel := w.roundContext(ctx, plan)
+		refErr := s.Refresh(rctx)
+		cancel()
 
 		// No version above the one offered in this round exists yet.
 		obs, n := probeStorage(ctx, s, round+1)
@@ -413,7 +461,11 @@ func runStorageHistory(r *vrt.Run, dir string, c faultCase) (out []vrt.Finding) 
 				abs++
 			}
 		}
-		r.Class(fmt.Sprintf("round:advanced=%d,absent=%d,refresh-error=%t", adv, abs, refErr != nil))
+		variant := "round"
+		if c.RulesOnly {
+			variant = "rules-only-round"
+		}
+		r.Class(fmt.Sprintf("%s:advanced=%d,absent=%d,refresh-error=%t", variant, adv, abs, refErr != nil))
 		if len(temps) > 0 {
 			r.Class("round:temp-files-left")
 		}
@@ -421,8 +473,8 @@ func runStorageHistory(r *vrt.Run, dir string, c faultCase) (out []vrt.Finding) 
 		for _, pos := range storagePositions {
 			fileVers = append(fileVers, pos+"="+fileVersion(pos, files[cacheFileOf(pos)], versions))
 		}
-		fmt.Fprintf(log, "r%d plan=%v req=%v err=%t serve[%s] disk[%s]\n",
-			round, fmtObs(plan), reqs, refErr != nil, fmtObs(obs), strings.Join(fileVers, " "))
+		fmt.Fprintf(log, "%s r%d plan=%v req=%v err=%t serve[%s] disk[%s]\n",
+			variant, round, fmtObs(plan), reqs, refErr != nil, fmtObs(obs), strings.Join(fileVers, " "))
 
 		prevObs, prevFiles = obs, files
 	}
@@ -431,7 +483,7 @@ func runStorageHistory(r *vrt.Run, dir string, c faultCase) (out []vrt.Finding) 
 	w.mu.Lock()
 	w.down = true
 	w.mu.Unlock()
-	s2, err := newStorage(dir, bubbleParams)
+	s2, err := newStorage(dir, params)
 	if err != nil {
 		vrt.Fatalf("building restart storage: %v", err)
 	}
@@ -719,7 +771,9 @@ func runHPHistory(r *vrt.Run, dir string, c hpCase) (out []vrt.Finding) {
 			plan[posHP] = kind
 		}
 		w.setRound(round, plan)
-		refErr := f.Refresh(ctx)
+		rctx, cancel := w.roundContext(ctx, plan)
+		refErr := f.Refresh(rctx)
+		cancel()
 		cur, n := servedState(ctx, hpProbe{f}, lstHP, versions)
 		r.Trans(2 + n)
 		files, _, rerr := readCacheDir(dir)
